@@ -30,6 +30,7 @@ From Coq Require Import PrimFloat.
 From Coq Require Import ZArith List Bool Reals Lra Permutation Sorted.
 From BZ Require Import Base.Ops Proofs.Tactics Gen.Point Gen.Line Gen.Quad Gen.Cubic Hand.Shoelace Hand.Clip Proofs.C13 Proofs.C12.
 Import ListNotations.
+From BZ Require Proofs.Transfer6clip.
 From BZ Require Gen.Sample Gen.Clip Proofs.Bridge6.
 Open Scope R_scope.
 
@@ -72,6 +73,24 @@ Proof. exact @Bridge6.ClipBridge.clip_gen. Qed.
 Theorem C13_clip_gen_R :
   forall (K : Type) (fmt_2f : R -> K) (keq : K -> K -> bool) (toZ : R -> option Z) (gclipper : Clip.clip_type -> list (list (Z * Z)) -> list (list (Z * Z)) -> option (list (list (Z * Z)))) (hclipper : cliptype -> list (list (Z * Z)) -> list (list (Z * Z)) -> option (list (list (Z * Z)))) (flatten2 : segment R -> option (list (seg2 R))), (forall (ct : Clip.clip_type) (s c : list (list (Z * Z))), hclipper (Bridge6.ClipBridge.ct_of ct) s c = gclipper ct s c) -> forall (fuel : nat) (self other : list (segment R)) (ct : Clip.clip_type) (flat : bool) (ints : list (pt R * (segment R * segment R * (R * pt R * R)))) (sl1 sl2 : list (segment R * R)) (pieces1 pieces2 : list (segment R)), Bridge6.ClipBridge.g_isect ROps fmt_2f keq fuel self other = Some (Sample.Returns (ints, sl1, sl2)) -> Split.Path_splitAtPoints ROps fuel self sl1 = Some pieces1 -> Split.Path_splitAtPoints ROps fuel other sl2 = Some pieces2 -> splitAtPoints ROps self sl1 = Ok pieces1 -> splitAtPoints ROps other sl2 = Ok pieces2 -> Forall (Bridge6.ClipBridge.flat_ok ROps flatten2 fuel) pieces1 -> Forall (Bridge6.ClipBridge.flat_ok ROps flatten2 fuel) pieces2 -> Clip.Path_clip ROps fmt_2f keq toZ gclipper fuel self other ct flat = Bridge6.ClipBridge.embed (clip ROps toZ hclipper flatten2 self other sl1 sl2 (Bridge6.ClipBridge.ct_of ct) flat).
 Proof. exact @Bridge6.ClipBridge.clip_gen_R. Qed.
+Theorem C13_gen_curve_mode_invents_no_geometry :
+  forall (K : Type) (fmt_2f : R -> K) (keq : K -> K -> bool) (gclipper : Clip.clip_type -> list (list (Z * Z)) -> list (list (Z * Z)) -> option (list (list (Z * Z)))) (hclipper : clipper_t) (flatten2 : flatten_t), (forall (ct : Clip.clip_type) (s c : list zpoly), hclipper (Bridge6.ClipBridge.ct_of ct) s c = gclipper ct s c) -> forall (fuel : nat) (self other : list (segment R)) (ints : list (pt R * (segment R * segment R * (R * pt R * R)))) (sl1 sl2 : list (segment R * R)) (pieces1 pieces2 : list (segment R)), Bridge6.ClipBridge.g_isect ROps fmt_2f keq fuel self other = Some (Sample.Returns (ints, sl1, sl2)) -> Split.Path_splitAtPoints ROps fuel self sl1 = Some pieces1 -> Split.Path_splitAtPoints ROps fuel other sl2 = Some pieces2 -> splitAtPoints ROps self sl1 = Ok pieces1 -> splitAtPoints ROps other sl2 = Ok pieces2 -> Forall (Bridge6.ClipBridge.flat_ok ROps flatten2 fuel) pieces1 -> Forall (Bridge6.ClipBridge.flat_ok ROps flatten2 fuel) pieces2 -> forall (ct : Clip.clip_type) (paths : list (list (segment R) * bool)), Forall (fun st : segment R * R => snd st <= 1) sl1 -> Forall (fun st : segment R * R => snd st <= 1) sl2 -> Clip.Path_clip ROps fmt_2f keq R_toZ gclipper fuel self other ct false = Some (Sample.Returns paths) -> forall path : list (segment R) * bool, In path paths -> snd path = true /\ (forall v : segment R, In v (fst path) -> (exists (polys : list (list (Z * Z))) (p : list (Z * Z)) (a b : zpt) (st : store R) (subj clp : zpoly) (l : lut), prepare ROps R_toZ flatten2 self other sl1 sl2 = (st, Ok (subj, clp, l)) /\ gclipper ct [subj] [clp] = Some polys /\ In p polys /\ In (a, b) (closed_pairs p) /\ v = SLine {| l0 := unscale (zR a); l1 := unscale (zR b) |}) \/ (exists piece s : segment R, In s (self ++ other) /\ is_piece_of s piece /\ reversed_or_same piece v)).
+Proof. exact @Transfer6clip.gen_curve_mode_invents_no_geometry. Qed.
+Theorem C13_gen_curve_mode_segments_are_pieces :
+  forall (K : Type) (fmt_2f : R -> K) (keq : K -> K -> bool) (gclipper : Clip.clip_type -> list (list (Z * Z)) -> list (list (Z * Z)) -> option (list (list (Z * Z)))) (hclipper : clipper_t) (flatten2 : flatten_t), (forall (ct : Clip.clip_type) (s c : list zpoly), hclipper (Bridge6.ClipBridge.ct_of ct) s c = gclipper ct s c) -> forall (fuel : nat) (self other : list (segment R)) (ints : list (pt R * (segment R * segment R * (R * pt R * R)))) (sl1 sl2 : list (segment R * R)) (pieces1 pieces2 : list (segment R)), Bridge6.ClipBridge.g_isect ROps fmt_2f keq fuel self other = Some (Sample.Returns (ints, sl1, sl2)) -> Split.Path_splitAtPoints ROps fuel self sl1 = Some pieces1 -> Split.Path_splitAtPoints ROps fuel other sl2 = Some pieces2 -> splitAtPoints ROps self sl1 = Ok pieces1 -> splitAtPoints ROps other sl2 = Ok pieces2 -> Forall (Bridge6.ClipBridge.flat_ok ROps flatten2 fuel) pieces1 -> Forall (Bridge6.ClipBridge.flat_ok ROps flatten2 fuel) pieces2 -> forall (ct : Clip.clip_type) (paths : list (list (segment R) * bool)), Clip.Path_clip ROps fmt_2f keq R_toZ gclipper fuel self other ct false = Some (Sample.Returns paths) -> exists (f1 f2 : list (seg2 R)) (polys : list (list (Z * Z))), Transfer6clip.g_flat_edges fuel pieces1 = Some f1 /\ Transfer6clip.g_flat_edges fuel pieces2 = Some f2 /\ gclipper ct [map start_scaled_trunc f1] [map start_scaled_trunc f2] = Some polys /\ (forall path : list (segment R) * bool, In path paths -> snd path = true /\ (forall v : segment R, In v (fst path) -> (exists (p : list (Z * Z)) (a b : zpt), In p polys /\ In (a, b) (closed_pairs p) /\ v = SLine {| l0 := unscale (zR a); l1 := unscale (zR b) |}) \/ (exists piece : segment R, In piece (pieces1 ++ pieces2) /\ reversed_or_same piece v))).
+Proof. exact @Transfer6clip.gen_curve_mode_segments_are_pieces. Qed.
+Theorem C13_gen_curve_mode_subarcs :
+  forall (K : Type) (fmt_2f : R -> K) (keq : K -> K -> bool) (gclipper : Clip.clip_type -> list (list (Z * Z)) -> list (list (Z * Z)) -> option (list (list (Z * Z)))) (hclipper : clipper_t) (flatten2 : flatten_t), (forall (ct : Clip.clip_type) (s c : list zpoly), hclipper (Bridge6.ClipBridge.ct_of ct) s c = gclipper ct s c) -> forall (fuel : nat) (self other : list (segment R)) (ints : list (pt R * (segment R * segment R * (R * pt R * R)))) (sl1 sl2 : list (segment R * R)) (pieces1 pieces2 : list (segment R)), Bridge6.ClipBridge.g_isect ROps fmt_2f keq fuel self other = Some (Sample.Returns (ints, sl1, sl2)) -> Split.Path_splitAtPoints ROps fuel self sl1 = Some pieces1 -> Split.Path_splitAtPoints ROps fuel other sl2 = Some pieces2 -> splitAtPoints ROps self sl1 = Ok pieces1 -> splitAtPoints ROps other sl2 = Ok pieces2 -> Forall (Bridge6.ClipBridge.flat_ok ROps flatten2 fuel) pieces1 -> Forall (Bridge6.ClipBridge.flat_ok ROps flatten2 fuel) pieces2 -> forall (ct : Clip.clip_type) (paths : list (list (segment R) * bool)), Forall (fun st : segment R * R => snd st <= 1) sl1 -> Forall (fun st : segment R * R => snd st <= 1) sl2 -> Clip.Path_clip ROps fmt_2f keq R_toZ gclipper fuel self other ct false = Some (Sample.Returns paths) -> exists (f1 f2 : list (seg2 R)) (polys : list (list (Z * Z))), Transfer6clip.g_flat_edges fuel pieces1 = Some f1 /\ Transfer6clip.g_flat_edges fuel pieces2 = Some f2 /\ gclipper ct [map start_scaled_trunc f1] [map start_scaled_trunc f2] = Some polys /\ (forall path : list (segment R) * bool, In path paths -> snd path = true /\ (forall v : segment R, In v (fst path) -> (exists (p : list (Z * Z)) (a b : zpt), In p polys /\ In (a, b) (closed_pairs p) /\ v = SLine {| l0 := unscale (zR a); l1 := unscale (zR b) |}) \/ (exists piece s : segment R, In piece (pieces1 ++ pieces2) /\ In s (self ++ other) /\ is_piece_of s piece /\ reversed_or_same piece v))).
+Proof. exact @Transfer6clip.gen_curve_mode_subarcs. Qed.
+Theorem C13_gen_empty_clip_empty_result :
+  forall (K : Type) (fmt_2f : R -> K) (keq : K -> K -> bool) (gclipper : Clip.clip_type -> list (list (Z * Z)) -> list (list (Z * Z)) -> option (list (list (Z * Z)))) (hclipper : clipper_t) (flatten2 : flatten_t), (forall (ct : Clip.clip_type) (s c : list zpoly), hclipper (Bridge6.ClipBridge.ct_of ct) s c = gclipper ct s c) -> forall (fuel : nat) (self other : list (segment R)) (ints : list (pt R * (segment R * segment R * (R * pt R * R)))) (sl1 sl2 : list (segment R * R)) (pieces1 pieces2 : list (segment R)), Bridge6.ClipBridge.g_isect ROps fmt_2f keq fuel self other = Some (Sample.Returns (ints, sl1, sl2)) -> Split.Path_splitAtPoints ROps fuel self sl1 = Some pieces1 -> Split.Path_splitAtPoints ROps fuel other sl2 = Some pieces2 -> splitAtPoints ROps self sl1 = Ok pieces1 -> splitAtPoints ROps other sl2 = Ok pieces2 -> Forall (Bridge6.ClipBridge.flat_ok ROps flatten2 fuel) pieces1 -> Forall (Bridge6.ClipBridge.flat_ok ROps flatten2 fuel) pieces2 -> forall (st : store R) (subj clp : zpoly) (l : lut) (ct : Clip.clip_type) (flat : bool), prepare ROps R_toZ flatten2 self other sl1 sl2 = (st, Ok (subj, clp, l)) -> gclipper ct [subj] [clp] = Some [] -> Clip.Path_clip ROps fmt_2f keq R_toZ gclipper fuel self other ct flat = Some (Sample.Returns []).
+Proof. exact @Transfer6clip.gen_empty_clip_empty_result. Qed.
+Theorem C13_gen_empty_clip_no_paths :
+  forall (K : Type) (fmt_2f : R -> K) (keq : K -> K -> bool) (gclipper : Clip.clip_type -> list (list (Z * Z)) -> list (list (Z * Z)) -> option (list (list (Z * Z)))) (hclipper : clipper_t) (flatten2 : flatten_t), (forall (ct : Clip.clip_type) (s c : list zpoly), hclipper (Bridge6.ClipBridge.ct_of ct) s c = gclipper ct s c) -> forall (fuel : nat) (self other : list (segment R)) (ints : list (pt R * (segment R * segment R * (R * pt R * R)))) (sl1 sl2 : list (segment R * R)) (pieces1 pieces2 : list (segment R)), Bridge6.ClipBridge.g_isect ROps fmt_2f keq fuel self other = Some (Sample.Returns (ints, sl1, sl2)) -> Split.Path_splitAtPoints ROps fuel self sl1 = Some pieces1 -> Split.Path_splitAtPoints ROps fuel other sl2 = Some pieces2 -> splitAtPoints ROps self sl1 = Ok pieces1 -> splitAtPoints ROps other sl2 = Ok pieces2 -> Forall (Bridge6.ClipBridge.flat_ok ROps flatten2 fuel) pieces1 -> Forall (Bridge6.ClipBridge.flat_ok ROps flatten2 fuel) pieces2 -> forall (ct : Clip.clip_type) (flat : bool) (paths : list (list (segment R) * bool)) (f1 f2 : list (seg2 R)), Transfer6clip.g_flat_edges fuel pieces1 = Some f1 -> Transfer6clip.g_flat_edges fuel pieces2 = Some f2 -> gclipper ct [map start_scaled_trunc f1] [map start_scaled_trunc f2] = Some [] -> Clip.Path_clip ROps fmt_2f keq R_toZ gclipper fuel self other ct flat = Some (Sample.Returns paths) -> paths = [].
+Proof. exact @Transfer6clip.gen_empty_clip_no_paths. Qed.
+Theorem C13_gen_curve_mode_segments_are_pieces_g :
+  forall (K : Type) (fmt_2f : R -> K) (keq : K -> K -> bool) (gclipper : Clip.clip_type -> list (list (Z * Z)) -> list (list (Z * Z)) -> option (list (list (Z * Z)))) (flatten2 : flatten_t) (fuel : nat) (self other : list (segment R)) (ints : list (pt R * (segment R * segment R * (R * pt R * R)))) (sl1 sl2 : list (segment R * R)) (pieces1 pieces2 : list (segment R)), Bridge6.ClipBridge.g_isect ROps fmt_2f keq fuel self other = Some (Sample.Returns (ints, sl1, sl2)) -> Split.Path_splitAtPoints ROps fuel self sl1 = Some pieces1 -> Split.Path_splitAtPoints ROps fuel other sl2 = Some pieces2 -> splitAtPoints ROps self sl1 = Ok pieces1 -> splitAtPoints ROps other sl2 = Ok pieces2 -> Forall (Bridge6.ClipBridge.flat_ok ROps flatten2 fuel) pieces1 -> Forall (Bridge6.ClipBridge.flat_ok ROps flatten2 fuel) pieces2 -> forall (ct : Clip.clip_type) (paths : list (list (segment R) * bool)), Clip.Path_clip ROps fmt_2f keq R_toZ gclipper fuel self other ct false = Some (Sample.Returns paths) -> exists (f1 f2 : list (seg2 R)) (polys : list (list (Z * Z))), Transfer6clip.g_flat_edges fuel pieces1 = Some f1 /\ Transfer6clip.g_flat_edges fuel pieces2 = Some f2 /\ gclipper ct [map start_scaled_trunc f1] [map start_scaled_trunc f2] = Some polys /\ (forall path : list (segment R) * bool, In path paths -> snd path = true /\ (forall v : segment R, In v (fst path) -> (exists (p : list (Z * Z)) (a b : zpt), In p polys /\ In (a, b) (closed_pairs p) /\ v = SLine {| l0 := unscale (zR a); l1 := unscale (zR b) |}) \/ (exists piece : segment R, In piece (pieces1 ++ pieces2) /\ reversed_or_same piece v))).
+Proof. exact @Transfer6clip.gen_curve_mode_segments_are_pieces_g. Qed.
 
 Print Assumptions C13_result_segments_provenance.
 Print Assumptions C13_closed_pairs_in.
@@ -86,3 +105,9 @@ Print Assumptions C13_ex_subcurve.
 Print Assumptions C13_inputs_unmodified.
 Print Assumptions C13_clip_gen.
 Print Assumptions C13_clip_gen_R.
+Print Assumptions C13_gen_curve_mode_invents_no_geometry.
+Print Assumptions C13_gen_curve_mode_segments_are_pieces.
+Print Assumptions C13_gen_curve_mode_subarcs.
+Print Assumptions C13_gen_empty_clip_empty_result.
+Print Assumptions C13_gen_empty_clip_no_paths.
+Print Assumptions C13_gen_curve_mode_segments_are_pieces_g.
